@@ -146,11 +146,21 @@ func c20Wiring(e *Env) {
 			okArgs := core.Resolve(core.Arg(c, 0)) == ssa.Value(f.Params[1])
 			vArg := core.Arg(c, 1)
 			okVal := false
+			// how the constructor keeps the option: a pointer field (nil = absent) or a value field with a presence flag
+			valueField, presentField := c20Representation(e)
 			if ld, ok := vArg.(*ssa.UnOp); ok {
 				if ld2, ok := ld.X.(*ssa.UnOp); ok {
-					if _, fl, ok := core.FieldOf(ld2.X); ok && fl == "noResponseValue" {
+					if _, fl, ok := core.FieldOf(ld2.X); ok && fl == valueField {
 						okVal = true
 					}
+				}
+				if _, fl, ok := core.FieldOf(ld.X); ok && fl == valueField && presentField != "" {
+					okVal = true
+				}
+			}
+			if fv, ok := vArg.(*ssa.Field); ok && presentField != "" {
+				if _, fl, ok := core.FieldOf(fv); ok && fl == valueField {
+					okVal = true
 				}
 			}
 			e.R.Check(okArgs && okVal, rule, "net/responsewriter.ResponseWriter.SetResponse:predicate-args", e.pos(c),
@@ -162,6 +172,23 @@ func c20Wiring(e *Env) {
 			})
 			nilIf := func(i *ssa.If) int {
 				cond, neg := core.StripNot(i.Cond)
+				if presentField != "" {
+					// value + presence flag: the flag itself is the test
+					var fl string
+					var okF bool
+					switch x := cond.(type) {
+					case *ssa.UnOp:
+						_, fl, okF = core.FieldOf(x.X)
+					case *ssa.Field:
+						_, fl, okF = core.FieldOf(x)
+					}
+					if okF && fl == presentField {
+						if neg {
+							return -1
+						}
+						return 1
+					}
+				}
 				cmp, ok := core.AsCmp(cond)
 				if !ok {
 					return 0
@@ -172,7 +199,7 @@ func c20Wiring(e *Env) {
 						return false
 					}
 					_, fl, ok := core.FieldOf(ld.X)
-					return ok && fl == "noResponseValue"
+					return ok && fl == valueField && presentField == ""
 				}
 				if (isField(cmp.X) && core.IsNilConst(cmp.Y)) || (isField(cmp.Y) && core.IsNilConst(cmp.X)) {
 					s := 1
@@ -410,4 +437,60 @@ func c20WhoSetsCode(e *Env) {
 	if nSeen == 0 {
 		e.R.Undecided(rule, "module:sets-code", "-", "no SetCode on a response writer's message found")
 	}
+}
+
+// c20Representation: how responsewriter.New keeps the request's No-Response option for SetResponse – the field the looked-up value
+// (or its address) is stored in, and, when the value is stored by value, the sibling boolean field that is set to true with it.
+func c20Representation(e *Env) (valueField, presentField string) {
+	valueField = "noResponseValue"
+	f := e.P.Func("net/responsewriter.New")
+	if f == nil {
+		return
+	}
+	for _, c := range core.CallsNamed(f, "message.Options.GetUint32") {
+		call, ok := c.(*ssa.Call)
+		if !ok {
+			continue
+		}
+		for _, ref := range core.Referrers(call) {
+			ex, isEx := ref.(*ssa.Extract)
+			if !isEx || ex.Index != 0 {
+				continue
+			}
+			for _, u := range core.Referrers(ex) {
+				st, isSt := u.(*ssa.Store)
+				if !isSt || st.Val != ssa.Value(ex) {
+					continue
+				}
+				switch a := st.Addr.(type) {
+				case *ssa.FieldAddr:
+					// stored by value into a struct: look for the flag set to true in the same struct
+					if _, fl, okF := core.FieldOf(a); okF {
+						valueField = fl
+						for _, u2 := range core.Referrers(a.X) {
+							if fa2, isFA := u2.(*ssa.FieldAddr); isFA && fa2 != a {
+								for _, u3 := range core.Referrers(fa2) {
+									if st2, isSt2 := u3.(*ssa.Store); isSt2 {
+										if b, isB := core.ConstBool(st2.Val); isB && b {
+											_, presentField, _ = core.FieldOf(fa2)
+										}
+									}
+								}
+							}
+						}
+					}
+				case *ssa.Alloc:
+					// a heap cell whose address is stored into a pointer field
+					for _, u2 := range core.Referrers(a) {
+						if st2, isSt2 := u2.(*ssa.Store); isSt2 && st2.Val == ssa.Value(a) {
+							if _, fl, okF := core.FieldOf(st2.Addr); okF {
+								valueField = fl
+							}
+						}
+					}
+				}
+			}
+		}
+	}
+	return
 }
